@@ -162,37 +162,39 @@ theorem foldl_last (P : Path → Bool) : ∀ (l : List Path) (init : Path),
     | some a => simp
     | none => by_cases hx : P x = true <;> simp [hx]
 
-/-- `top_element` panics exactly on a document node without element child (DESIGN.md section 8
-    #10); on any other document node it is `document_element`; on a non-document node it is
+/-- `top_element` never panics. On a document node it is the first element child
+    (`document_element`), the document node itself if there is none; on any other node it is
     the first element on the way from the root down to the node, the node itself if there is
     none (`XXX in an unattached tree this may not be an element`). -/
 theorem topElement_eq (t : Tree) (p : Path) :
-    (topElement t p = .panic ↔
-      (valueAt t p).isDocument = true ∧ ∀ c ∈ children t p, (valueAt t c).isElement = false) ∧
-    ((valueAt t p).isDocument = true → ∀ c, topElement t p = .ok c ↔ documentElement t p = .ok c) ∧
+    topElement t p ≠ .panic ∧
+    ((valueAt t p).isDocument = true →
+      topElement t p = .ok (((children t p).find? (fun c => (valueAt t c).isElement)).getD p)) ∧
+    ((valueAt t p).isDocument = true → ∀ c, documentElement t p = .ok c → topElement t p = .ok c) ∧
     ((valueAt t p).isDocument = false →
       topElement t p = .ok (((ancRel p ++ [p]).find? (fun a => (valueAt t a).isElement)).getD p)) := by
-  refine ⟨?_, ?_, ?_⟩
-  · unfold topElement
-    rw [documentElement_eq]
-    cases hd : (valueAt t p).isDocument
-    · simp
-    · cases hf : (children t p).find? (fun c => (valueAt t c).isElement) with
-      | none => simpa [docElemOf, List.find?_eq_none] using hf
-      | some c0 =>
-        have h1 := List.find?_some hf
-        have h2 := List.mem_of_find?_eq_some hf
-        simp only [if_true, docElemOf]
-        constructor
-        · intro h; cases h
-        · intro h; have := h.2 c0 h2; rw [h1] at this; cases this
-  · intro hd c
+  have hdoc : (valueAt t p).isDocument = true →
+      topElement t p = .ok (((children t p).find? (fun c => (valueAt t c).isElement)).getD p) := by
+    intro hd
     unfold topElement
     rw [documentElement_eq]
     cases hf : (children t p).find? (fun c => (valueAt t c).isElement) <;> simp [hd, docElemOf]
-  · intro hd
+  have hnd : (valueAt t p).isDocument = false →
+      topElement t p = .ok (((ancRel p ++ [p]).find? (fun a => (valueAt t a).isElement)).getD p) := by
+    intro hd
     unfold topElement
     rw [foldl_last, ancestors_eq]
     simp [hd]
+  refine ⟨?_, hdoc, ?_, hnd⟩
+  · cases hd : (valueAt t p).isDocument
+    · rw [hnd hd]; intro h; cases h
+    · rw [hdoc hd]; intro h; cases h
+  · intro hd c hc
+    rw [hdoc hd]
+    rw [documentElement_eq, hd] at hc
+    simp only [if_true] at hc
+    cases hf : (children t p).find? (fun c => (valueAt t c).isElement) with
+    | none => rw [hf] at hc; cases hc
+    | some c0 => rw [hf] at hc; simp only [docElemOf] at hc; injection hc with hc; subst hc; rfl
 
 end XotModel.Axes
